@@ -3,7 +3,7 @@
 From Coq Require Import String.
 From Coq Require Import List Ascii ZArith Bool Lia.
 From CGV Require Import Base.PyBase Base.PyVal Base.NxGraph Resolve.Bonding Resolve.GraphOps Resolve.Pipeline
-     Resolve.MapDefs Resolve.Witness Resolve.VirtualProofs.
+     Resolve.StepCheck Resolve.MapDefs Resolve.Witness Resolve.VirtualProofs Resolve.C11Check.
 Import ListNotations.
 Open Scope Z_scope.
 
@@ -11,23 +11,19 @@ Definition nodes_of_coarse (k : Z) (so : step_out) : list Z :=
   match fg_get k (so_fgs so) with Some g => node_keys g | None => [] end.
 
 (** the pair (base, base with a virtual node inserted; A has key [ka] resp. [ka'], V has key [kv]):
-    fine molecule literally unchanged / A keeps its atoms / V carries nothing *)
+    fine molecule unchanged up to fragid / A keeps its atoms / V carries nothing *)
 Definition pair_check (b b' : graph) (ka ka' kv : Z) : res (bool * bool * bool) :=
   so <- run_coarse b ;; so' <- run_coarse b' ;;
-  Ok (graph_eqb (so_mol so) (so_mol so'),
+  Ok (graph_eqb (strip_fragid (so_mol so)) (strip_fragid (so_mol so')),
       same_set (nodes_of_coarse ka so) (nodes_of_coarse ka' so'),
       match nodes_of_coarse kv so' with [] => true | _ => false end).
 
-(** "every other coarse node stays mapped to exactly its own atoms" is violated by the faithful model
-    when the virtual node is not last: {[#A][#B]} vs {[#V].[#A][#B]} *)
-Theorem C11_map_refuted :
-  virtual_not_last fd_AB base_VAB = true /\ pair_check base_AB base_VAB 0 1 0 = Ok (true, false, false).
-Proof. split; vm_compute; reflexivity. Qed.
-
-(** with the virtual node last the mapping is untouched: {[#A][#B]} vs {[#A][#B].[#V]} *)
-Example C11_map_last :
-  virtual_not_last fd_AB base_ABV = false /\ pair_check base_AB base_ABV 0 0 2 = Ok (true, true, true).
-Proof. split; vm_compute; reflexivity. Qed.
+(** the former witness of class virtual_not_last ({[#A][#B]} vs {[#V].[#A][#B]}; repaired in /repo
+    fa307dd) and the virtual-node-last pair: the mapping is untouched in both *)
+Example C11_map_first : pair_check base_AB base_VAB 0 1 0 = Ok (true, true, true).
+Proof. vm_compute. reflexivity. Qed.
+Example C11_map_last : pair_check base_AB base_ABV 0 0 2 = Ok (true, true, true).
+Proof. vm_compute. reflexivity. Qed.
 
 (** ---- the instantiation loop *)
 (** skip_virtual: a fragment-less node whose edges all have order 0 adds nothing ... *)
@@ -61,7 +57,6 @@ Theorem C11_only_zero_edges_no_bonds : forall legacy arom edges, Forall (fun e :
   forall s acc, edges_from_bonding legacy arom edges s acc = Ok (s, acc).
 Proof. exact no_bond_for_nonpositive. Qed.
 
-Print Assumptions C11_map_refuted.
 Print Assumptions C11_skip_virtual.
 Print Assumptions C11_skip_virtual_anywhere.
 Print Assumptions C11_reject.
